@@ -770,7 +770,7 @@ def run_histories(ctx, hists, oracles, tag="random"):
                     if isinstance(o, dict) and str(o.get("method", "")).startswith("unsub") and json.dumps(o.get("params")) == want)
             if n != 1:
                 ctx.fail("oracle", "dropped-subscription-not-unsubscribed-once", case,
-                         "subscription %r was dropped while the request queue was full and then got another notification: %d unsubscribe requests on the wire" % (H.expect_unsub, n))
+                         "subscription %r was dropped (or lagged) while the request queue was full, the read task then had to close it: %d unsubscribe requests on the wire, exactly one expected" % (H.expect_unsub, n))
         if "c18" in oracles:
             if H.clean and quiescent_by_output(H, evs):
                 ctx.count("c18:quiescent-histories")
@@ -911,6 +911,29 @@ def c05_lag_histories(rng):
                     H.clean = False
                     H.expect_lag = s["h"]
                     out.append(H)
+    # the lag is detected while the send task is stalled in a write AND the front-to-back queue is full: the read task's close
+    # request must wait for room; then the wire recovers and the server stays silent on that subscription
+    for idstr in (0, 1):
+        for bufcap in (1, 2):
+            for qcap in (1, 2):
+                H = new_hist(rng, idstr=idstr, bufcap=bufcap, gate=1, qcap=qcap)
+                H.op_sub()
+                for _ in range(3):
+                    H.add("release", kind="release")
+                s = accept_sub_h(H, H.h)
+                for _ in range(1 + qcap):
+                    H.op_notify()            # the first is stuck in its transport write, the others fill the queue
+                for k in range(bufcap + 1):
+                    H.add("back %s" % hx(J(H.notif(s["nm"], s["sid"], "p%d" % k))), kind="back", what="pushes",
+                          items=[dict(what="push", sid=s["sid"], val="p%d" % k)], grouped=False)
+                for _ in range(10):
+                    H.add("release", kind="release")
+                for _ in range(bufcap + 2):
+                    H.add("next %d" % s["h"], kind="next")
+                H.clean = False
+                H.expect_lag = s["h"]
+                H.expect_unsub = s["sid"]
+                out.append(H)
     return out
 
 
@@ -922,7 +945,7 @@ def c05_drop_full_queue_histories(rng):
     for idstr in (0, 1):
         for qcap in (1, 2):
             for extra_calls in (qcap + 1, qcap + 2):
-                for pushes_before in (0, 1):
+                for pushes_before, late_at in ((0, "drained"), (1, "drained"), (0, "full"), (1, "full")):
                     H = new_hist(rng, idstr=idstr, qcap=qcap, bufcap=4, gate=1)
                     H.op_sub()
                     hs = H.h
@@ -939,11 +962,14 @@ def c05_drop_full_queue_histories(rng):
                     s["gone"] = True
                     H.ended.append(s)
                     H.add("drop %d" % hs, kind="drop", sh=hs, sid=s["sid"], uid=s["uid"])
-                    for _ in range(8):
-                        H.add("release", kind="release")
+                    if late_at == "drained":
+                        for _ in range(8):
+                            H.add("release", kind="release")
+                    # "full": the notification arrives while the send task is still stalled and the queue still full (the read
+                    # task's close request has to wait for room); afterwards the wire recovers and the server stays silent
                     H.add("back %s" % hx(J(H.notif(s["nm"], s["sid"], "late"))), kind="back", what="pushes",
                           items=[dict(what="push-ended", sid=s["sid"], val="late")], grouped=False)
-                    for _ in range(4):
+                    for _ in range(12 if late_at == "full" else 4):
                         H.add("release", kind="release")
                     # clean-up: answer the calls, acknowledge the unsubscribe (added by ack_wire_unsubs for C18)
                     while H.calls:
